@@ -174,7 +174,7 @@ def sample_env(decls, rng, spread=1.0):
                 v = hi - math.exp(rng.uniform(-2.0, 2.0) * spread)
             else:
                 v = rng.uniform(-2.0, 2.0) * spread
-            env[n] = round(v, 6)
+            env[n] = round(v, 6) if spread <= 2.0 else float("%.12g" % v)
     return env
 
 
@@ -199,7 +199,20 @@ def find_point(decls, conds, rng, tries=300, fns=None):
                 return env
         except (ZeroDivisionError, ValueError, OverflowError):
             continue
-    return _smt_point(decls, conds, rng, fns)
+    env = _smt_point(decls, conds, rng, fns)
+    if env is not None:
+        return env
+    # regions only reached far from the unit box (a clamp, an epsilon, a tolerance: cumulative sums below log(eps), rates of 1e-8, ...):
+    # the same rejection sampling at wider and wider scales
+    for spread in (4.0, 10.0, 20.0):
+        for k in range(tries // 2):
+            env = sample_env(decls, rng, spread=spread)
+            try:
+                if _conds_hold(conds, env, fns):
+                    return env
+            except (ZeroDivisionError, ValueError, OverflowError):
+                continue
+    return None
 
 
 def _smt_point(decls, conds, rng, fns):
